@@ -113,6 +113,27 @@ chk(
     "token-level CFG path enumeration with lookahead facts + dominance + dispatch-table extraction + character-class dataflow",
 )
 
+chk(
+    "C01",
+    "Partial: conformance over all programs x documents is not decided. Decided by provenance analysis of every arm of "
+    "interpreter::interpret against a skeleton table transcribed from the specification (what each arm returns, "
+    "short-circuit, null-dropping projection, one-level flatten, multi-select null handling and unconditional collection, "
+    "compare -> null/Bool mapping), plus exhaustive walks of the leaf tables (is_truthy incl. 0-is-truthy, get_field, "
+    "accessors, get_type) under the 7 value kinds and the ascending-key (BTreeMap) representation.",
+    "Trusted: the skeleton table; composition of arms into whole-expression semantics (structural induction, not decided).",
+    "per-arm provenance analysis + dominance (short-circuit / null filter) + exhaustive leaf decision-tree walks",
+)
+chk(
+    "C11",
+    "The context-flow table of the evaluator (for each node kind: which sub-expression is evaluated against which current "
+    "node) is extracted by provenance analysis of interpreter::interpret and must equal the specified table for all 18 node "
+    "kinds; the same context is threaded through; only search and the four expression-reference builtins may call the "
+    "evaluator; pipe and dot both build Subexpr(left, right) and a parenthesised expression yields the inner node; the "
+    "'depends on nothing else' clause is the C13 effect analysis.",
+    "Trusted: structural induction from per-arm composition to the algebraic laws.",
+    "provenance (origin) analysis of the evaluator's recursive call sites + who-may-call + effect analysis",
+)
+
 for pid in [f"C{n:02d}" for n in range(1, 19)]:
     if pid not in CHECKS and pid not in NOT_APPLICABLE:
         na(pid, "check not implemented yet in this revision of /verif (work in progress; see DESIGN.md §3)")
